@@ -11,6 +11,8 @@ CONSTANTS
   DropSizes = {3}
   MaxQueue = 2
   MaxCount = 1
+  MaxTotal = 0
+  TrackPromise = FALSE
 INVARIANTS TypeOK KeptRemembered RecencyOrder DroppedRemembered RecentRemembered
 PROPERTIES ResizeKeepsNewest EvictOnlyOldest RecordDroppedAnswered RecentSticks ObligationEndsOnlyWhenFull NoSpontaneousAnswer
 ACTION_CONSTRAINT Dump
